@@ -23,6 +23,63 @@ def oracle(hexs_, bits, dcls, icls):
     return bad
 
 
+POSITIONS = ['exponent', 'multiplier', 'prefix', 'initial', 'order', 'cnreal', 'cnmant', 'cnexp']
+SPEC_BASIC = re.compile(r'-?(?:[0-9]+\.?[0-9]*|\.[0-9]+)\Z')
+SI = ['yotta', 'zetta', 'exa', 'peta', 'tera', 'giga', 'mega', 'kilo', 'hecto', 'deca', 'deci', 'centi', 'milli', 'micro', 'nano', 'pico', 'femto', 'atto', 'zepto', 'yocto']
+
+
+def pos_oracle(pos, s):
+    """property-level expectation for text s at a position: True = an issue must be raised, False = must not,
+    None = not decided by the statement (range edges of double are left to the model)"""
+    from fractions import Fraction
+    def int_ok(t):
+        return bool(SPEC_INT.match(t)) and -2 ** 31 <= int(t) <= 2 ** 31 - 1
+    def real_range(t):
+        # safely inside / outside the double range; None near the edges
+        m = re.match(r'(-?)([0-9]*)\.?([0-9]*)(?:[eE]([+-]?[0-9]+))?\Z', t)
+        digits = (m.group(2) + m.group(3)).lstrip('0')
+        if not digits:
+            return True
+        e = int(m.group(4) or 0) - len(m.group(3)) + len(digits) - 1   # decimal exponent of the leading digit
+        if -300 <= e <= 300: return True
+        if e > 310 or e < -330: return False
+        return None
+    t = s.strip(' \t\n\r\x0b\x0c')
+    if pos in ('exponent', 'multiplier'):
+        if not SPEC_REAL.match(s): return True
+        r = real_range(s); return None if r is None else (not r)
+    if pos == 'initial':
+        return False if (s == '' or SPEC_REAL.match(s)) else True
+    if pos == 'order':
+        return not int_ok(s)
+    if pos == 'prefix':
+        return not (s == '' or s in SI or int_ok(s))
+    if pos in ('cnreal', 'cnmant'):
+        if not SPEC_BASIC.match(t): return True
+        r = real_range(t); return None if r is None else (not r)
+    if pos == 'cnexp':
+        return not int_ok(t)
+
+
+def position_lines(rng, tier):
+    alpha = '0123456789+-.eE a'
+    strs = ['']
+    n = 1 if tier == 'quick' else 2
+    for k in range(1, n + 1):
+        import itertools
+        strs += [''.join(t) for t in itertools.product(alpha, repeat=k)]
+    strs += ['2147483647', '2147483648', '-2147483648', '-2147483649', '+2147483647', '99999999999', '1e308', '1e999', '1E-999', '-1.5e+10',
+             '0.' + '0' * 400 + '1', '9' * 400, '1.' + '9' * 30, 'kilo', 'milli', 'kil', ' 7', '7 ', ' 2147483648 ', '00000000000000000000001']
+    strs += [x for x in random_strings(rng, 120 if tier == 'quick' else 1500)]
+    out = []
+    for s in strs:
+        if s != '' and s.strip(' ') == '':
+            continue            # white-space-only content: whether libxml2 keeps the text node is process-global state (C12)
+        for p in POSITIONS:
+            out.append((p, s))
+    return out
+
+
 def random_strings(rng, n):
     alpha = '0123456789+-.eE a'
     out = []
@@ -62,10 +119,16 @@ def run(chk, replay=None):
     if replay:
         r = json.load(open(replay))
         lines = r.get('lines', [])
-        _, a, _ = run_lines(hx, ['num'], lines); _, b, _ = run_lines(drv, ['num'], lines)
+        eng = r.get('engine', 'num')
+        _, a, _ = run_lines(hx, [eng], lines); _, b, _ = run_lines(drv, [eng], lines)
         for l, x, y in zip(lines, a, b):
-            log('replay', l, 'impl:', x, 'model:', y, 'oracle:', oracle(*x.split()))
-            if x != y or oracle(*x.split()):
+            if eng == 'num':
+                bad = oracle(*x.split())
+            else:
+                p, hx_ = l.split(); txt = bytes.fromhex('' if hx_ == '-' else hx_).decode('latin-1'); e = pos_oracle(p, txt)
+                bad = x.endswith('THROWS') or (e is not None and x.split()[-1] != ('1' if e else '0'))
+            log('replay', l, 'impl:', x, 'model:', y, 'oracle fails:', bad)
+            if x != y or bad:
                 chk.violation('replayed input still fails: ' + x, r, True)
         return
     n = 4 if chk.tier == 'quick' else 5
@@ -80,7 +143,26 @@ def run(chk, replay=None):
     if rc1 or rc3:
         chk.violation('implementation harness crashed: ' + (e1 + e3)[-500:], {'kind': 'crash', 'stderr': (e1 + e3)[-2000:]}, False)
     impl += impl2; model += model2
-    chk.cov['evaluations'] = len(impl)
+    # the same texts in every position where a number is read (Parser + Validator (+ Printer, Analyser must not throw))
+    plines = position_lines(rng, chk.tier)
+    pl = ['%s %s' % (p, hexs(x)) for p, x in plines]
+    rc5, pimpl, e5 = run_lines_parallel(hx, ['numpos'], pl)
+    rc6, pmodel, e6 = run_lines(drv, ['numpos'], pl)
+    pos_dis, pos_ora = [], []
+    pos_hist = {}
+    for (p, x), a, b in zip(plines, pimpl, pmodel):
+        key = p + ':' + a.split()[-1]
+        pos_hist[key] = pos_hist.get(key, 0) + 1
+        if a != b:
+            pos_dis.append((p, x, a, b))
+        exp = pos_oracle(p, x)
+        got = a.split()[-1]
+        if got == 'THROWS' or (exp is not None and got != ('1' if exp else '0')):
+            pos_ora.append((p, x, a, exp))
+    if rc5:
+        chk.violation('implementation harness crashed in numpos: ' + e5[-500:], {'kind': 'crash', 'stderr': e5[-2000:]}, False)
+    chk.cov['positions'] = dict(evaluations=len(pl), histogram=pos_hist, positions=POSITIONS)
+    chk.cov['evaluations'] = len(impl) + len(pl)
     chk.cov['exhaustive'] = True
     chk.cov['rule'] = ('all %d strings of length <= %d over "0123456789+-.eE a" (exhaustive) + %d seeded random long strings '
                        '(grammar-shaped, extreme magnitudes, int-range edges, noise); non-trivial = accepted by at least one recogniser '
@@ -104,6 +186,13 @@ def run(chk, replay=None):
     chk.cov['traces_validated_against_impl'] = len(impl) - len(disagree)
     chk.cov['outcome_histogram'] = hist
     chk.cov['samples'] = [impl[i] for i in (0, 17, 300, len(impl) // 2, len(impl) - 3, len(impl) - 1) if i < len(impl)]
+    for p, x, a, exp in sorted(pos_ora, key=lambda t: len(t[1]))[:3]:
+        chk.violation('text %r at position %s: implementation says %s, the statement requires %s' % (x, p, a.split()[-1], 'an issue' if exp else 'no issue / no throw'),
+                      {'kind': 'oracle', 'engine': 'numpos', 'lines': ['%s %s' % (p, hexs(x))], 'impl': a}, True)
+    if not pos_ora:
+        for p, x, a, b in sorted(pos_dis, key=lambda t: len(t[1]))[:3]:
+            chk.violation('position model and implementation disagree (correspondence `numpos` broken): impl %s / model %s' % (a, b),
+                          {'kind': 'correspondence', 'engine': 'numpos', 'lines': ['%s %s' % (p, hexs(x))], 'impl': a, 'model': b}, False)
     seen = set()
     for h, bad in sorted(orafail, key=lambda t: (len(t[0]), t[0]))[:3]:
         if h in seen: continue
